@@ -39,6 +39,10 @@ CONFIGS = {
                 (7, 'mismatch', 'two', 'nonstr', True)],
     'noreply2': [(None, 'unchecked', 's', 'msg', False),
                  (5, 'match', 'two', 'msg', True)],
+    # a non-empty declared return signature answered without any value, and
+    # a declared-empty one answered with a value
+    'declared-vs-empty2': [(None, 'mismatch', 'none', 'msg', True),
+                           (5, 'empty', 'two', 'bare', True)],
     'same-deadline2': [(5, 'unchecked', 's', 'msg', True),
                        (5, 'match', 'none', 'bare', True)],
     'three': [(5, 'unchecked', 's', 'msg', True),
@@ -347,7 +351,7 @@ def run(ctx):
     ctx.assumptions = ['calls are issued in index order; deadlines are '
                        'permuted through the configurations instead']
     names = ['plain2', 'deadlines2', 'deadlines2rev', 'mixed2', 'retsig2',
-             'noreply2', 'same-deadline2']
+             'noreply2', 'same-deadline2', 'declared-vs-empty2']
     if ctx.quick:
         for n in names:
             explore.explore(ctx, CallScenario, {'config': n}, max_depth=12,
